@@ -688,19 +688,29 @@ pub fn cmd_conc(t: &mut Toks, root: &std::path::Path, line: &str) -> String {
         let (m, cv) = &*ctl;
         let mut x = seed | 1;
         let mut last: Option<usize> = None;
-        let mut lock_holder: Option<usize> = None;
+        // threads released into the write-lock acquisition while another thread held the lock, and
+        // which did not come back within the probe timeout: they are blocked inside LMDB
+        let mut blocked: Vec<usize> = Vec::new();
+        let mut probes = 0;
         loop {
             let mut g = m.lock().unwrap();
-            // wait until nobody is running (all at a point or done) - with a watchdog
+            // wait until every thread that is not known to be blocked is at a point or done
             let mut waited = 0;
-            while g.states.iter().any(|s| *s == TState::Running) || g.turn.is_some() {
-                let (ng, to) = cv.wait_timeout(g, std::time::Duration::from_millis(200)).unwrap();
+            loop {
+                blocked.retain(|t| g.states[*t] == TState::Running);
+                let busy = g.turn.is_some() || g.states.iter().enumerate().any(|(i, s)| *s == TState::Running && !blocked.contains(&i));
+                let only_blocked_left = !busy
+                    && !blocked.is_empty()
+                    && g.states.iter().enumerate().all(|(i, s)| *s == TState::Done || blocked.contains(&i));
+                if !busy && !only_blocked_left {
+                    break;
+                }
+                let (ng, to) = cv.wait_timeout(g, std::time::Duration::from_millis(100)).unwrap();
                 g = ng;
                 if to.timed_out() {
                     waited += 1;
-                    if waited > 50 {
+                    if waited > 100 {
                         g.trace.push((usize::MAX, "WATCHDOG"));
-                        // let everyone go
                         g.free = true;
                         cv.notify_all();
                         return;
@@ -711,7 +721,7 @@ pub fn cmd_conc(t: &mut Toks, root: &std::path::Path, line: &str) -> String {
                 break;
             }
             // who holds the LMDB write lock: the thread parked between acquiring it and committing
-            lock_holder = None;
+            let mut lock_holder: Option<usize> = None;
             for (i, stt) in g.states.iter().enumerate() {
                 if let TState::AtPoint(name) = stt {
                     if holds_write_lock(name) {
@@ -719,23 +729,59 @@ pub fn cmd_conc(t: &mut Toks, root: &std::path::Path, line: &str) -> String {
                     }
                 }
             }
-            // enabled threads: at a point, and not about to block on the write lock held by another
-            let enabled: Vec<usize> = (0..nthreads)
-                .filter(|i| match &g.states[*i] {
-                    TState::AtPoint(name) => !((*name == "store:before-txn" || *name == "remove:before-txn") && lock_holder.is_some() && lock_holder != Some(*i)),
-                    _ => false,
-                })
-                .collect();
+            x ^= x >> 12;
+            x ^= x << 25;
+            x ^= x >> 27;
+            let r = x.wrapping_mul(0x2545F4914F6CDD1D);
+            // a thread blocked inside LMDB may be acquiring the lock right now: until it has parked
+            // again, the lock counts as held
+            let lock_busy = lock_holder.is_some() || !blocked.is_empty();
+            let would_block = |i: usize, g: &Ctl| match &g.states[i] {
+                TState::AtPoint(name) => (*name == "store:before-txn" || *name == "remove:before-txn") && lock_busy && lock_holder != Some(i),
+                _ => false,
+            };
+            let parked: Vec<usize> = (0..nthreads).filter(|i| matches!(g.states[*i], TState::AtPoint(_))).collect();
+            let enabled: Vec<usize> = parked.iter().copied().filter(|i| !would_block(*i, &g)).collect();
+            let probeable: Vec<usize> = parked.iter().copied().filter(|i| would_block(*i, &g)).collect();
+            // now and then release a thread that SHOULD block on the write lock, to see whether it does
+            let probe = !probeable.is_empty() && blocked.is_empty() && lock_holder.is_some() && probes < 1 && (r >> 40) % 100 < 30;
+            if probe {
+                probes += 1;
+                let t = probeable[((r >> 20) as usize) % probeable.len()];
+                g.turn = Some(t);
+                cv.notify_all();
+                // wait for it to park again (it was not blocked) or time out (it is blocked in LMDB)
+                let deadline = std::time::Instant::now() + std::time::Duration::from_millis(50);
+                loop {
+                    let now = std::time::Instant::now();
+                    if now >= deadline {
+                        break;
+                    }
+                    let (ng, _) = cv.wait_timeout(g, deadline - now).unwrap();
+                    g = ng;
+                    if g.turn.is_none() && g.states[t] != TState::Running {
+                        break;
+                    }
+                }
+                if g.states[t] == TState::Running || g.turn.is_some() {
+                    blocked.push(t);
+                } else {
+                    g.trace.push((t, "UNBLOCKED-WHILE-LOCK-HELD"));
+                }
+                continue;
+            }
             if enabled.is_empty() {
+                if !blocked.is_empty() {
+                    // wait for the blocked thread to get the lock and park
+                    let (ng, _) = cv.wait_timeout(g, std::time::Duration::from_millis(20)).unwrap();
+                    drop(ng);
+                    continue;
+                }
                 g.trace.push((usize::MAX, "DEADLOCK"));
                 g.free = true;
                 cv.notify_all();
                 break;
             }
-            x ^= x >> 12;
-            x ^= x << 25;
-            x ^= x >> 27;
-            let r = x.wrapping_mul(0x2545F4914F6CDD1D);
             let choice = match last {
                 Some(l) if enabled.contains(&l) && (r % 1000) >= switch => l,
                 _ => enabled[((r >> 20) as usize) % enabled.len()],
